@@ -128,25 +128,25 @@ func tokNum(secret string) int {
 
 // Write is one state-store write (one Raft apply).
 type Write struct {
-	K      string `json:"k"` // svc dsvc node dnode chk dchk cfg dcfg tok dtok pol role kv reg txn
-	Node   string `json:"node,omitempty"`
-	SID    string `json:"sid,omitempty"`
-	Name   string `json:"name,omitempty"`
-	Kind   string `json:"kind,omitempty"` // "" | proxy | native
-	Dest   string `json:"dest,omitempty"`
-	Port   int    `json:"port,omitempty"`
-	Meta   string `json:"meta,omitempty"`
-	Check  string `json:"check,omitempty"`
-	Status string `json:"status,omitempty"`
-	Proto  string `json:"proto,omitempty"`
-	Tok    int    `json:"tok,omitempty"`
-	Pol    int    `json:"pol,omitempty"`
-	Links  []int  `json:"links,omitempty"` // policies linked by a token / role
-	Role   bool   `json:"role,omitempty"`  // token links role 0
-	Desc   string `json:"desc,omitempty"`
-	NMeta  string `json:"nmeta,omitempty"`  // reg: node meta written by the same request
-	NCheck string `json:"ncheck,omitempty"` // reg: status of the node-level check "nc" written by the same request
-	Ops    []Write `json:"ops,omitempty"`   // txn: node / svc / chk / dsvc / dchk operations of ONE transaction
+	K      string  `json:"k"` // svc dsvc node dnode chk dchk cfg dcfg tok dtok pol role kv reg txn
+	Node   string  `json:"node,omitempty"`
+	SID    string  `json:"sid,omitempty"`
+	Name   string  `json:"name,omitempty"`
+	Kind   string  `json:"kind,omitempty"` // "" | proxy | native
+	Dest   string  `json:"dest,omitempty"`
+	Port   int     `json:"port,omitempty"`
+	Meta   string  `json:"meta,omitempty"`
+	Check  string  `json:"check,omitempty"`
+	Status string  `json:"status,omitempty"`
+	Proto  string  `json:"proto,omitempty"`
+	Tok    int     `json:"tok,omitempty"`
+	Pol    int     `json:"pol,omitempty"`
+	Links  []int   `json:"links,omitempty"` // policies linked by a token / role
+	Role   bool    `json:"role,omitempty"`  // token links role 0
+	Desc   string  `json:"desc,omitempty"`
+	NMeta  string  `json:"nmeta,omitempty"`  // reg: node meta written by the same request
+	NCheck string  `json:"ncheck,omitempty"` // reg: status of the node-level check "nc" written by the same request
+	Ops    []Write `json:"ops,omitempty"`    // txn: node / svc / chk / dsvc / dchk operations of ONE transaction
 }
 
 // Ev is an abstract event: topic, subject, instance id, value (0 = deregister / delete).
@@ -171,13 +171,13 @@ type Content struct {
 }
 
 type Step struct {
-	Op string `json:"op"` // commit pub sub next unsub restore evict
-	W  *Write `json:"w,omitempty"`
-	R  []Write `json:"r,omitempty"` // restore: writes replayed into the fresh store
-	C  int    `json:"c"`
-	TS TS     `json:"ts"`
-	Tok int   `json:"tok"`
-	CK int    `json:"ck"` // client kind: 0 = rpc materializer (resets when the stream is aborted), 1 = local materializer (keeps its index)
+	Op  string  `json:"op"` // commit pub sub next unsub restore evict
+	W   *Write  `json:"w,omitempty"`
+	R   []Write `json:"r,omitempty"` // restore: writes replayed into the fresh store
+	C   int     `json:"c"`
+	TS  TS      `json:"ts"`
+	Tok int     `json:"tok"`
+	CK  int     `json:"ck"` // client kind: 0 = rpc materializer (resets when the stream is aborted), 1 = local materializer (keeps its index)
 
 	// observations
 	Idx    uint64    `json:"idx,omitempty"`    // commit: raft index used
@@ -208,18 +208,19 @@ type Failure struct {
 }
 
 type Case struct {
-	ID      int      `json:"id"`
-	Gen     string   `json:"gen"`
-	Steps   []Step   `json:"steps"`
-	Bufs    int      `json:"bufs"`
-	Snaps   int      `json:"snaps"`
-	QueueN  int      `json:"queue_n"`
-	Oracle  string    `json:"oracle"` // "" or kind:cause of every distinct oracle failure, joined by ";"
-	Fails   []Failure `json:"fails,omitempty"`
-	NVals   int      `json:"nvals"`
-	Mode    string   `json:"mode"`
-	Cache   bool     `json:"cache"` // snapshot cache enabled (snapCacheTTL != 0)
-	Vals    []string `json:"vals,omitempty"`
+	ID     int       `json:"id"`
+	Gen    string    `json:"gen"`
+	Steps  []Step    `json:"steps"`
+	Bufs   int       `json:"bufs"`
+	Snaps  int       `json:"snaps"`
+	QueueN int       `json:"queue_n"`
+	Oracle string    `json:"oracle"` // "" or kind:cause of every distinct oracle failure, joined by ";"
+	Fails  []Failure `json:"fails,omitempty"`
+	NVals  int       `json:"nvals"`
+	Mode   string    `json:"mode"`
+	Cache  bool      `json:"cache"` // snapshot cache enabled (snapCacheTTL != 0)
+	Vals   []string  `json:"vals,omitempty"`
+	Idx0   bool      `json:"idx0,omitempty"` // the first write gets raft index 1 (upstream tests do that; Raft never does)
 }
 
 var debugVals = false
@@ -898,12 +899,15 @@ func clearObs(st *Step) {
 }
 
 // runCase executes the schedule (appending the final drain) and evaluates the oracle.
-func runCase(id int, gen string, steps []Step, cache bool, drain bool) Case {
+func runCase(id int, gen string, steps []Step, cache bool, drain bool, idx0 ...bool) Case {
 	ttl := time.Duration(0)
 	if cache {
 		ttl = time.Hour
 	}
 	w := newWorld(ttl)
+	if len(idx0) > 0 && idx0[0] {
+		w.idx = 0
+	}
 	defer w.close()
 	out := make([]Step, 0, len(steps)+32)
 	for i := range steps {
@@ -935,7 +939,7 @@ func runCase(id int, gen string, steps []Step, cache bool, drain bool) Case {
 			}
 		}
 	}
-	c := Case{ID: id, Gen: gen, Steps: out, NVals: len(w.vals), Mode: "sched", Cache: cache}
+	c := Case{ID: id, Gen: gen, Steps: out, NVals: len(w.vals), Mode: "sched", Cache: cache, Idx0: len(idx0) > 0 && idx0[0]}
 	if debugVals {
 		c.Vals = make([]string, len(w.vals)+1)
 		for k, v := range w.vals {
